@@ -76,6 +76,7 @@ class EnumSpec:
     raw_attrs: List[str] = field(default_factory=list)        # e.g. strum_discriminants(...)
     vis: str = "pub"
     macro_args: List[tuple] = field(default_factory=list)     # [(name, fragment, tokens)]: the enum is the body of a macro_rules! invoked with these
+    macro_replace: bool = False   # replace every occurrence of `tokens` in the rendered definition by `$name` (refsem keeps reading the literal spec)
     subst: dict = field(default_factory=dict)   # type parameter -> concrete type used by the harness
     role: str = "pivot"           # pivot | random
     note: str = ""
@@ -364,6 +365,12 @@ def render_enum(spec: EnumSpec):
     if spec.macro_args:
         # the definition reaches the derive through macro_rules! fragment substitution ($x:expr arrives as an invisible group)
         pat = ", ".join("$%s:%s" % (n, f) for n, f, _ in spec.macro_args)
+        if spec.macro_replace:
+            body = "\n".join(lines)
+            for n, f, t in spec.macro_args:
+                assert t in body, "macro argument %r does not occur in the definition" % t
+                body = body.replace(t, "$" + n)
+            lines = body.split("\n")
         lines = ["macro_rules! mk_%s {" % spec.name.lower(), "    (%s) => {" % pat] + ["        " + l for l in lines] + \
                 ["    };", "}", "mk_%s!(%s);" % (spec.name.lower(), ", ".join(t for _, _, t in spec.macro_args))]
     return "\n".join(lines)
